@@ -4,9 +4,9 @@
 \* scaled 1 MiB (a file-backed tree holds 8 bytes less, so its last page is partial, as in the code).
 SPECIFICATION Spec
 CONSTANTS
-  NKeys = 6
+  NKeys = 7
   NVals = 2
-  MaxOps = 6
+  MaxOps = 7
   MK = 4
   PS = 80
   MinSize = 400
